@@ -8,6 +8,8 @@ def runFaults (args : List String) : Res :=
   match args with
   | "session" :: _ => { out := "teardown-ok", tags := "session-fault" }
   | "session-clean" :: _ => { out := "teardown-ok", tags := "session-clean" }
+  | "deadline-stall" :: _ => { out := "teardown-ok", tags := "deadline-stall" }
+  | "file-fault" :: _ => { out := "teardown-ok", tags := "file-fault" }
   | "hs-client" :: _ | "hs-server" :: _ => { out := "handshake-clean", tags := "hs-fault" }
   | ["hs-client-stall"] | ["hs-server-stall"] | ["hs-client-silent", _] | "hs-client-tcp" :: _ => { out := "handshake-clean", tags := "hs-stall" }
   | ["close-via-write", _] =>
